@@ -180,10 +180,14 @@ def check_urlize(text, out, trim, rel, target, nofollow, extra):
             choices.append([html.unescape(raw)])
             continue
         _, href, rel_raw, target_raw, inner = p
-        for raw in (href, rel_raw or "", target_raw or "", inner):
+        for raw in (href, rel_raw or "", target_raw or ""):
             if not only_entities(raw):
                 return "bare-ampersand-in-anchor"
         h = html.unescape(href)
+        if not only_entities(inner):
+            if trim is not None and inner.endswith("...") and my_escape(h).startswith(inner[:-3]) and len(inner) == trim + 3:
+                return "trim-cuts-character-reference"  # the limit is applied to the escaped text
+            return "bare-ampersand-in-anchor"
         if href == "" or any(ch.isspace() for ch in h):
             return "whitespace-in-href"
         if not h.startswith(schemes):
@@ -388,14 +392,14 @@ def three(p, r, xs, vars_=None):
     vars_ = vars_ or {}
     outs = []
     raw = None
-    for f in (r.render, r.value, r.call):
+    for which, f in enumerate((r.render, r.value, r.call)):
         p.evals += 1
         try:
             v = f(xs, **vars_)
         except Exception as e:  # noqa: BLE001
             outs.append(("raises", type(e).__name__))
             continue
-        if f is r.render:
+        if which == 0:
             outs.append(v)
         else:
             raw = v
